@@ -450,3 +450,45 @@ def quiet_logging():
     lg.propagate = False
     lg.setLevel(logging.CRITICAL + 10)
     logging.getLogger('asyncio').setLevel(logging.CRITICAL + 10)
+
+
+# ---- reach probes: count engine log records by message template (no formatting, no clock, no PRNG) ----------
+PROBE_TEMPLATES = {
+    'Node %s has been executed. Stop new execution': 'duplicate_request_path',
+    'An error has been found in the %s': 'oneof_early_exit',
+    'Hide previous node results for recurrent subgraph %s': 'recurrent_reiteration',
+    'Node %s will be restarted in %s seconds...': 'retry_scheduled',
+    'Skip unlocking the descendants of the node, node_id=%s': 'recurrent_marker_returned',
+    'Attempts to run a recurrent subgraph have been exceeded. ': 'recurrent_exhausted_default',
+    'The %s has been succeeded': 'oneof_candidate_won',
+    'Prepare Switch DAG node_id=%s': 'switch_resolved',
+    'Task %s has been cancelled': 'engine_cancelled_task',
+    'The node %s cannot be executed due to absense the dependent result of the node %s': 'readiness_refused',
+}
+
+
+class ProbeHandler:
+    level = 0
+
+    def __init__(self):
+        self.counts = {}
+
+    def handle(self, record):
+        msg = record.msg
+        if isinstance(msg, str):
+            for t, name in PROBE_TEMPLATES.items():
+                if msg.startswith(t):
+                    self.counts[name] = self.counts.get(name, 0) + 1
+                    break
+        return True
+
+
+def probe_logging():
+    """enable DEBUG on the engine loggers with a counting handler; returns the handler"""
+    import logging
+    h = ProbeHandler()
+    lg = logging.getLogger('pipeline_engine')
+    lg.handlers[:] = [h]
+    lg.propagate = False
+    lg.setLevel(logging.DEBUG)
+    return h
